@@ -127,7 +127,13 @@ func runC05(c *Ctx) {
 				ok := false
 				for _, pk := range callsNamed(fn, "(bufio.Reader).Peek") {
 					pc := pk.(*ssa.Call)
-					if pc.Call.Args[0] != cc.Args[0] || pc.Call.Args[1] != cc.Args[1] {
+					sameSize := pc.Call.Args[1] == cc.Args[1]
+					if k1, ok1 := constInt(pc.Call.Args[1]); ok1 {
+						if k2, ok2 := constInt(cc.Args[1]); ok2 && k1 == k2 {
+							sameSize = true
+						}
+					}
+					if pc.Call.Args[0] != cc.Args[0] || !sameSize {
 						continue
 					}
 					for _, iff := range ifsIn(fn) {
@@ -160,7 +166,7 @@ func runC05(c *Ctx) {
 			continue
 		}
 		total := int64(1)
-		if np, nr := len(callsNamed(um, "frame.peekAndDiscard")), len(callsNamed(um, "io.ReadFull")); np < 2 || nr != 1 {
+		if np, nr := len(callsNamed(um, "frame.peekAndDiscard", "(bufio.Reader).Peek")), len(callsNamed(um, "io.ReadFull")); np < 2 || nr != 1 {
 			if nr == 0 && np >= 3 {
 				r.Fail("R5.3", v.fn+" consumed vs written", c.Pos(um.Pos()), "the payload is not read with io.ReadFull into a buffer of its own but peeked: a Peek of up to 255 bytes fails with ErrBufferFull on small user-supplied readers and the bytes it returns do not survive the next read")
 				continue
@@ -168,7 +174,7 @@ func runC05(c *Ctx) {
 			r.Broken("R5.3", v.fn+" consumed vs written", fmt.Sprintf("consumption idiom not understood (%d peekAndDiscard, %d io.ReadFull)", np, nr))
 			continue
 		}
-		for i, p := range callsNamed(um, "frame.peekAndDiscard") {
+		for i, p := range callsNamed(um, "frame.peekAndDiscard", "(bufio.Reader).Peek") {
 			k, _ := constInt(p.Common().Args[1])
 			if i < 2 {
 				total += k
@@ -236,7 +242,7 @@ func runC05(c *Ctx) {
 			continue
 		}
 		r.Functions[fnQual(fn)] = true
-		peeks := callsNamed(fn, "frame.peekAndDiscard")
+		peeks := callsNamed(fn, "frame.peekAndDiscard", "(bufio.Reader).Peek")
 		nIdx, bad55 := 0, ""
 		bad58 := ""
 		for _, p := range peeks {
